@@ -192,7 +192,6 @@ def registry(nxt='all', cfg='s1', shape=1, upd='run', data='bytes'):
                      bv_width=8, options={'assume_valid': False}))
     # ------------------------------------------------------------------------------------------------ update (C09, C10)
     aad_long = '(self._assoc_len is not None and self._cumul_assoc_len + len(assoc_data) > self._assoc_len)'
-    A_EXIT = views(cfg if cfg in PARKED + ('s1',) else 's1')[0]
     reg.add(Contract(C + '.update', params={'assoc_data': data},
                      requires=['self._cumul_assoc_len + len(assoc_data) < 2 ** 64'],          # scope note (2)
                      raises={'TypeError': ('iff', '"update" not in self._next'),
@@ -200,41 +199,41 @@ def registry(nxt='all', cfg='s1', shape=1, upd='run', data='bytes'):
                      unchanged_on_raise=['TypeError'],
                      ensures={'next': 'self._next == ["update", "encrypt", "decrypt", "digest", "verify"]',
                               'self': 'result is self',
-                              'aad': '%s == %s + assoc_data' % (A_EXIT, A_OLD),
+                              # C09: the associated data so far grows by exactly this segment (parked: the concatenation of the list;
+                              # MAC running: the MAC input stream, whose tail after B_0 and the length header is A)
+                              'aad': ('b"".join(self._cache) == b"".join(old(self._cache)) + assoc_data' if parked else '%s == %s + assoc_data' % (S, OS)),
                               'count': 'self._cumul_assoc_len == old(self._cumul_assoc_len) + len(assoc_data)',
                               'kept': 'self._assoc_len == old(self._assoc_len) and self._msg_len == old(self._msg_len) and self._mac_status == old(self._mac_status)',
                               **INV},
-                     lemmas={'exit': ({} if parked else {'stream': '%s == %s + assoc_data' % (S, OS)})},
                      modifies=['self._next', 'self._cumul_assoc_len', 'self._cache.*', 'self._cache', 'self._t', 'self._mac.g_fed'],
                      inline=[C + '._update'] if parked else [], opaque=OPQ))
     # ------------------------------------------------------------------------------------------------ encrypt / decrypt (C01, C02, C09, C10, C11)
     aad_short = '(self._assoc_len is not None and self._cumul_assoc_len < self._assoc_len)'
-    A2, P2 = views('s2')
     for kind, arg in (('encrypt', 'plaintext'), ('decrypt', 'ciphertext')):
         too_long = '(self._msg_len is None and len(%s) >= %s)' % (arg, MAXLEN)                     # C11: 2**(8q) limit
         beyond = '(self._msg_len is not None and self._cumul_msg_len + len(%s) > self._msg_len)' % arg
         nxt_decl = '["encrypt", "digest"]' if kind == 'encrypt' else '["decrypt", "verify"]'
         nxt_und = '["digest"]' if kind == 'encrypt' else '["verify"]'
         msg = arg if kind == 'encrypt' else 'result'          # the MAC always runs over the plaintext
+        # C09: effect on the MAC input stream (the MAC always runs over the plaintext): the payload is appended, after the zero padding
+        # that closes the associated data (A.2.3) and, when the MAC could not start earlier, after B_0, the length header and the parked data
         if cfg == 's2':
-            steps = {'stream': '%s == %s + %s' % (S, OS, msg)}
+            stream = '%s == %s + %s' % (S, OS, msg)
         elif cfg == 's1':
-            steps = {'stream': '%s == %s + spec.aead2.zpad(len(%s)) + %s' % (S, OS, OS, msg), 'a_end': 'len(%s) == %s' % (OS, AEND)}
+            stream = '%s == %s + spec.aead2.zpad(len(%s)) + %s' % (S, OS, OS, msg)
         else:
-            steps = {'stream': '%s == %s + %s + %s + spec.aead2.zpad(%s) + %s' % (S, B0, HDR, A_OLD, AEND, msg),
-                     'a_end': 'len(%s) + len(%s) + len(%s) == %s' % (B0, HDR, A_OLD, AEND)}
+            stream = '%s == %s + %s + b"".join(old(self._cache)) + spec.aead2.zpad(%s) + %s' % (S, B0, HDR, AEND, msg)
         reg.add(Contract(C + '.' + kind, params={arg: data, 'output': 'none'},
                          raises={'TypeError': ('iff', '"%s" not in self._next' % kind),
                                  'ValueError': ('iff', '"%s" in self._next and (%s or %s or %s)' % (kind, aad_short, too_long, beyond))},
                          unchanged_on_raise=['TypeError'],
                          ensures={'next': 'self._next == (%s if old(self._msg_len) is not None else %s)' % (nxt_decl, nxt_und),
                                   'result': 'result == spec.aead2.ccm_crypt(self._key, self.nonce, old(self._cumul_msg_len), %s)' % arg,
-                                  'aad_kept': '%s == %s and self._cumul_assoc_len == old(self._cumul_assoc_len)' % (A2, A_OLD),
-                                  'msg': '%s == %s + %s and self._cumul_msg_len == old(self._cumul_msg_len) + len(%s)' % (P2, P_OLD, msg, arg),
+                                  'stream': stream,
+                                  'counts': 'self._cumul_assoc_len == old(self._cumul_assoc_len) and self._cumul_msg_len == old(self._cumul_msg_len) + len(%s)' % arg,
                                   'lens': 'self._assoc_len == (old(self._assoc_len) if old(self._assoc_len) is not None else old(self._cumul_assoc_len)) and '
                                           'self._msg_len == (old(self._msg_len) if old(self._msg_len) is not None else len(%s))' % arg,
                                   'phase': 'self._mac_status == 2', **INV},
-                         lemmas={'exit': steps},
                          modifies=['self._next', 'self._assoc_len', 'self._msg_len', 'self._cumul_msg_len', 'self._mac_status',
                                    'self._cache.*', 'self._cache', 'self._t', 'self._mac.g_fed', 'self._cipher.g_pos'],
                          opaque=OPQ + ['spec.aead2.ccm_crypt']))
